@@ -13,6 +13,9 @@
 #include "hfile_priv.h"
 #include "h4v.h"
 #include "memio.h"
+#ifdef H4V_C02
+#include "../../oracle/h4spec.h"
+#endif
 
 #ifndef NPAY
 #define NPAY 48
@@ -134,6 +137,36 @@ g_reopen(void)
         A[i].open = 0;
 }
 
+#ifdef H4V_C02
+/* C02: after every close the bytes on "disk" must be a well-formed HDF4 file from
+ * which an independent reader recovers the same logical content. */
+static void
+c02_check(void)
+{
+    static h4spec_t sp;
+    static unsigned char rec[GMAX + 8];
+    int  e;
+    long i, n;
+    int  ok = h4spec_scan(memio_files[0].data, memio_files[0].size, &sp);
+    H4V_ASSERT(ok, "C02.wellformed: bytes on disk violate the HDF4 format (magic / DD chain / bounds / duplicates / overlap)");
+    if (!ok) return;
+    for (e = 0; e < NEL; e++) {
+        int dup = 0, k;
+        if (!G[e].exists || !G[e].hasdata) continue;
+        for (k = 0; k < e; k++) if (G[k].exists && TAG[k] == TAG[e] && REF[k] == REF[e]) dup = 1;
+        if (dup) continue;
+        n = h4spec_read(memio_files[0].data, memio_files[0].size, &sp, TAG[e], REF[e], rec, GMAX, memio_files[1].exists ? memio_files[1].data : 0,
+                        memio_files[1].exists ? memio_files[1].size : 0);
+        H4V_ASSERT(n != -1, "C02.special: a special element's header/tables are inconsistent with the objects they reference");
+        if (n < 0) continue;
+        H4V_ASSERT(n == G[e].len, "C02.length: independent reader finds a different element length than the library reported");
+        for (i = 0; i < n && i < GMAX; i++)
+            if (Gdef[G[e].store][i])
+                H4V_ASSERT(rec[i] == Gdata[G[e].store][i], "C02.content: independent reader recovers different bytes than were written");
+    }
+}
+#endif
+
 static void
 check_all(void)
 {
@@ -230,6 +263,9 @@ harness(void)
                     H4V_ASSERT(Hclose(fid) == SUCCEED, "H.close");
                     fid = FAIL;
                     g_reopen();
+#ifdef H4V_C02
+                    c02_check();
+#endif
                 }
                 break;
             }
